@@ -139,10 +139,20 @@ func c18StratUnit(c *core.Ctx, e *cat.Strat, cfg []float64) {
 	k, n := trieShape(w, 4, extra, budget)
 	label := e.Name + fmtCfg(cfg)
 	var nodes, nontriv int64
+	rules := []func([]float64, cat.Bars) cat.RuleFn{e.Rule}
+	for _, m := range e.AsIs {
+		rules = append(rules, m)
+	}
 	// two bar alphabets: the four regular bars, and the two zero-volume bars (one of them flat) with two regular ones - a
 	// halted session makes ratios infinite or undefined in every unit alike, so the recommendations must still agree
-	for _, symbols := range [][]int{{0, 1, 2, 3}, {5, 6, 0, 1}} {
+	for si, symbols := range [][]int{{0, 1, 2, 3}, {5, 6, 0, 1}, {0, 1, 2, 3}} {
 		symbols := symbols
+		if si == 2 {
+			if e.Rule == nil {
+				continue
+			}
+			rowsSrc = fineBars // closes and volumes one part in 10^4 apart (see checks/strat.go)
+		}
 		walkWords(k, n, func(word []int, _ any) any {
 			mapped := make([]int, len(word))
 			for i, sy := range word {
@@ -181,17 +191,61 @@ func c18StratUnit(c *core.Ctx, e *cat.Strat, cfg []float64) {
 						map[string]any{"strategy": e.Name, "config": cfg, "bars": rows, "factor": factor, "volume": volume})
 				}
 			}
-			for _, f := range priceFactors {
-				try(f, false)
+			if si < 2 {
+				for _, f := range priceFactors {
+					try(f, false)
+				}
+				for _, f := range volumeFactors {
+					try(f, true)
+				}
 			}
-			for _, f := range volumeFactors {
-				try(f, true)
+			// factors that are no powers of two (dollars to cents, lots of three): the scaled arithmetic rounds differently,
+			// so only the positions where the documented rule compares quantities that are NOT equal within rounding are
+			// judged (C06's tie exemption, evaluated on the original and on the scaled bars)
+			// (a strategy with a recorded deviation from its documented rule compares other quantities than the rule does:
+			// a position is judged only if neither the documented rule nor any recorded as-is model has a tie there;
+			// runs with a recorded extra action are left out, their positions are shifted)
+			if si != 1 && e.Rule != nil && len(base.Actions) == len(rows) {
+				for _, f := range []float64{100, 3, 0.01} {
+					r2rows := make([][5]float64, len(rows))
+					for i, r := range rows {
+						r2rows[i] = r
+						for k2 := 0; k2 < 4; k2++ {
+							r2rows[i][k2] *= f
+						}
+					}
+					r2 := RunStrategy(e.New(cfg), cat.Snapshots(r2rows), 0, mc.Options{})
+					c.Executions++
+					c.Transitions += int64(r2.Res.Events)
+					if !r2.Healthy() || len(r2.Actions) != len(base.Actions) {
+						continue
+					}
+					b1, b2 := cat.MakeBars(rows), cat.MakeBars(r2rows)
+					ex := make([]bool, len(rows))
+					for _, mk := range rules {
+						setScale([][]float64{b1.H.V})
+						_, ex1 := expected(mk(cfg, b1), len(rows))
+						setScale([][]float64{b2.H.V})
+						_, ex2 := expected(mk(cfg, b2), len(rows))
+						for i := range ex {
+							ex[i] = ex[i] || ex1[i] || ex2[i]
+						}
+					}
+					for i := range base.Actions {
+						if i < len(ex) && !ex[i] && base.Actions[i] != r2.Actions[i] {
+							c.Fail("", fmt.Sprintf("%s bars %v: multiplying all prices by %g changes the recommendation at position %d from %d to %d (no tie at that position)", label, rows, f, i, base.Actions[i], r2.Actions[i]),
+								map[string]any{"strategy": e.Name, "config": cfg, "bars": rows, "factor": f})
+							break
+						}
+					}
+				}
 			}
 			if nodes == 20 {
 				c.Sample(map[string]any{"strategy": e.Name, "config": cfg, "bars": rows, "actions": base.Actions})
 			}
 			return nil
 		})
+		rowsSrc = sigmaBars
 	}
 	c.States += nodes
 	c.Evaluations += nodes
